@@ -401,7 +401,72 @@ def _default_cases(tier):
                                        "instances": _instances(props, required)}]}}
 
 
+def _twin_cases(tier):
+    """Two places of one model that share ONE generated class (inline enums with the same title and members, the same referenced
+    enum / model, directly or as array items / union member) x requiredness of each place x declaration order x every presence
+    pattern: what one place is (required, nullable) must not travel to the other through the shared class."""
+    ref = lambda n: {"$ref": f"#/components/schemas/{n}"}  # noqa: E731
+    shared = {
+        "titled-enum": (lambda: {"type": "string", "title": "Country", "enum": ["de", "fr"]}, "de", {}),
+        "titled-int-enum": (lambda: {"type": "integer", "title": "Level", "enum": [1, 2]}, 2, {}),
+        "enum-ref": (lambda: ref("Kind"), "x", {"Kind": {"type": "string", "enum": ["x", "y"]}}),
+        "model-ref": (lambda: ref("Ref"), {"z": 1}, {"Ref": {"type": "object", "properties": {"z": {"type": "integer"}}}}),
+    }
+    wraps = {"plain": lambda sch, v: (sch, v), "array": lambda sch, v: ({"type": "array", "items": sch}, [v]),
+             "union": lambda sch, v: ({"oneOf": [sch, {"type": "integer", "maximum": -5}]}, v),
+             "nullable": lambda sch, v: ({"oneOf": [sch, {"type": "null"}]}, v)}
+    for sname, (mk, val, comps0) in shared.items():
+        for w1, w2 in itertools.product(wraps, repeat=2):
+            if tier == "quick" and w1 != "plain" and w2 != "plain":
+                continue
+            for reqs in ([], ["first"], ["second"], ["first", "second"]):
+                s1, v1 = wraps[w1](mk(), val)
+                s2, v2 = wraps[w2](mk(), val)
+                comps = copy.deepcopy(comps0)
+                comps["M"] = {"type": "object", "properties": {"first": s1, "second": s2}, **({"required": reqs} if reqs else {})}
+                insts = []
+                for has1, has2 in itertools.product((True, False), repeat=2):
+                    if (not has1 and "first" in reqs) or (not has2 and "second" in reqs):
+                        continue
+                    value = {**({"first": copy.deepcopy(v1)} if has1 else {}), **({"second": copy.deepcopy(v2)} if has2 else {})}
+                    insts.append({"cls": ("first" if has1 else "") + "+" + ("second" if has2 else "") if (has1 or has2) else "absent", "value": value})
+                for nm, w in (("first", w1), ("second", w2)):
+                    if w == "nullable":
+                        insts.append({"cls": f"{nm}-null", "value": {**{k: copy.deepcopy(v) for k, v in (("first", v1), ("second", v2)) if k in reqs}, nm: None}})
+                yield {"labels": [f"twin={sname}", f"first={w1}", f"second={w2}", "req=" + ",".join(reqs)], "payload": {
+                    "doc": gen.base_doc(comps), "options": {}, "targets": [
+                        {"component": "M", "key": f"twin:{sname}/{w1}+{w2}/{'+'.join(reqs) or 'none'}", "instances": insts}]}}
+
+
+def _related_name_cases(tier):
+    """The model's class name is a suffix / prefix / case variant of the class it refers to (Item -> OrderItem, Item -> ItemOrder),
+    the reference being a property, array items, a nullable union member or typed additionalProperties; the referenced class is a
+    model or an enum; instances populate the reference."""
+    ref = lambda n: {"$ref": f"#/components/schemas/{n}"}  # noqa: E731
+    for other in ("OrderItem", "ItemOrder", "Items", "XItem", "item_", "ITEM2"):
+        for okind in ("model", "enum"):
+            osch, oval = ({"type": "object", "properties": {"z": {"type": "integer"}}}, {"z": 1}) if okind == "model" else ({"type": "string", "enum": ["x", "y"]}, "y")
+            for via in ("prop", "array", "nullable", "addl", "union"):
+                if via == "prop":
+                    item, insts = {"type": "object", "properties": {"o": ref(other)}}, [{"o": oval}, {}]
+                elif via == "array":
+                    item, insts = {"type": "object", "properties": {"o": {"type": "array", "items": ref(other)}}}, [{"o": [oval, oval]}, {"o": []}, {}]
+                elif via == "nullable":
+                    item, insts = {"type": "object", "properties": {"o": {"oneOf": [ref(other), {"type": "null"}]}}}, [{"o": oval}, {"o": None}, {}]
+                elif via == "union":
+                    item, insts = {"type": "object", "properties": {"o": {"oneOf": [ref(other), {"type": "integer"}]}}}, [{"o": oval}, {"o": 3}, {}]
+                else:
+                    item, insts = {"type": "object", "additionalProperties": ref(other)}, [{"k": oval, "j": oval}, {}]
+                for order in ("item-first", "item-last"):
+                    comps = {"Item": item, other: osch} if order == "item-first" else {other: osch, "Item": item}
+                    yield {"labels": [f"related-name={other}", f"kind={okind}", f"via={via}", order], "payload": {
+                        "doc": gen.base_doc(comps), "options": {}, "targets": [
+                            {"component": "Item", "key": f"related-name:{okind}/{via}", "instances": [{"cls": "populated" if i else "empty", "value": i} for i in insts]}]}}
+
+
 def cases(tier):
+    yield from _twin_cases(tier)
+    yield from _related_name_cases(tier)
     yield from _default_cases(tier)
     yield from _discriminated_union_cases(tier)
     yield from _builtin_name_cases(tier)
